@@ -213,6 +213,18 @@ bool vh::run_case(std::string const& op, Toks& in, Out& impl, Out& ref)
         op_ttraits<StdLib>(n, e1, e2, e3, ref);
         return true;
     }
+    if (op == "voidret") {
+        auto x = in.num();
+        op_voidret<EtlLib>(x, impl);
+        op_voidret<StdLib>(x, ref);
+        return true;
+    }
+    if (op == "makepairref") {
+        auto x = in.num(), y = in.num();
+        op_makepairref<EtlLib>(x, y, impl);
+        op_makepairref<StdLib>(x, y, ref);
+        return true;
+    }
     if (op == "retref") {
         int which = i();
         op_retref<EtlLib>(which, impl);
